@@ -69,6 +69,9 @@ TRACE_INV = ['TypeOK', 'RegisteredAreAlive', 'NoBad', 'OnlySubscribersCalled', '
 def trace_validate(res, n_traces, n_calls, what='random-histories'):
     """Pipeline B: long random histories over 6 handlers / 3 events executed on the real dispatcher, recorded,
     and checked by TLC against DispatcherTrace.tla with every invariant of Dispatcher.tla on."""
+    from .. import replay as _rp
+    if _rp.REPLAY is not None:
+        return
     import copy
     from .. import tracecheck, record_dispatcher as rd
     desper = common.import_desper()
